@@ -145,6 +145,7 @@ def regen(snap):
                              ('crc.py', [os.path.join(snap, 'cmdline/util.c'), os.path.join(COQ, 'Gen/CrcTables.v')]),
                              ('consts.py', [snap, os.path.join(COQ, 'Gen/Consts.v')]),
                              ('x86asm.py', [snap, os.path.join(COQ, 'Gen/X86Progs.v')]),
+                             ('x86asm_rec.py', [snap, os.path.join(COQ, 'Gen/X86RecProgs.v')]),
                              ):
             p = os.path.join(gen, script)
             if not os.path.exists(p):
